@@ -9,4 +9,5 @@ go build -o bin/vcheck ./cmd/vcheck || exit 2
 go build -o bin/vrewrite ./cmd/vrewrite || exit 2
 bin/vcheck selftest || exit 2
 bin/vcheck buildgovs || exit 2
+bin/vcheck shimtest || exit 2
 echo setup ok
